@@ -490,6 +490,64 @@ theorem numberToSource_other (x : F64) (h0 : ¬ (x.isInf = true ∧ x.neg = fals
     exact h1 ⟨hi, hn⟩
   simp [this, h3]
 
+theorem natDigits_no_minus (n : Nat) : '-' ∉ (F64.natDigits n).toList := by
+  intro h
+  simp only [F64.natDigits, Nat.toString_eq_repr, Nat.repr_eq_ofList_toDigits, String.toList_ofList] at h
+  have := Nat.isDigit_of_mem_toDigits (by decide) (by decide) h
+  revert this; decide
+
+theorem zeros_no_minus (n : Nat) : '-' ∉ (F64.zeros n).toList := by
+  simp [F64.zeros]
+
+theorem positional_no_minus (ds : String) (e : Int) (h : '-' ∉ ds.toList) :
+    '-' ∉ (F64.positional ds e).toList := by
+  unfold F64.positional
+  have hz := zeros_no_minus
+  split
+  · simp [h, hz]
+  · simp only []
+    split
+    · simp only [String.toList_append, String.toList_ofList, List.mem_append, not_or]
+      exact ⟨⟨fun hm => h (List.mem_of_mem_take hm), by decide⟩, fun hm => h (List.mem_of_mem_drop hm)⟩
+    · simp only [String.toList_append, List.mem_append, not_or]
+      exact ⟨⟨by decide, hz _⟩, h⟩
+
+theorem toDisplay_no_minus (x : F64) (hn : x.neg = false) : '-' ∉ x.toDisplay.toList := by
+  unfold F64.toDisplay
+  simp only [hn, Bool.false_eq_true, if_false]
+  split
+  · decide
+  · split
+    · decide
+    · split
+      · decide
+      · simp only [String.toList_append, List.mem_append, not_or]
+        exact ⟨by decide, positional_no_minus _ _ (natDigits_no_minus _)⟩
+
+theorem toFixed0_no_minus (x : F64) (hn : x.neg = false) : '-' ∉ (x.toFixed 0).toList := by
+  unfold F64.toFixed
+  simp only [hn, Bool.false_eq_true, if_false, if_true]
+  split
+  · decide
+  · split
+    · decide
+    · simp only [String.toList_append, List.mem_append, not_or]
+      refine ⟨by decide, ?_⟩
+      split
+      · simp only [String.toList_append, List.mem_append, not_or]
+        exact ⟨zeros_no_minus _, natDigits_no_minus _⟩
+      · exact natDigits_no_minus _
+
+/-- a number without the sign bit prints without a minus sign anywhere -/
+theorem numberToSource_no_minus (x : F64) (hn : x.neg = false) :
+    '-' ∉ (numberToSource x).toList := by
+  unfold numberToSource
+  split
+  · decide
+  · split
+    · exact toFixed0_no_minus x hn
+    · exact toDisplay_no_minus x hn
+
 /-! ### (7) do-block comments are emitted exactly once, in order -/
 
 /-- a piece of emitted text: a comment copied from the tree, or anything else -/
